@@ -40,6 +40,8 @@ def make_schema(n, edges):
     parts.append("type RN { e3: E3 v: Int }")
     parts.append("type R { id: ID e5: E5 nested: RN }")
     qs = [f"q{i}(a: I{i}): R" for i in range(1, n + 1)]
+    from mc import corpus
+    qs += [f"qw{k}(a: {shape.replace('T', f'I{n}')}): R" for k, shape in enumerate(corpus.SHAPES)]   # the last input behind every wrapper shape
     parts.append("type Query { q0: R qe(e: EVar): R " + " ".join(qs) + " }")
     return "\n".join(parts) + "\n"
 
@@ -196,6 +198,14 @@ def build_groups(tier):
                 names = [names[(gi + seed()) % len(names)], "one"] if gi % 2 == 0 else [names[(gi + seed()) % len(names)]]
             for on in dict.fromkeys(names):
                 groups.append(dict(n=n, edges=sorted(edges), opset=on, schema=make_schema(n, edges), queries=opsets[on]))
+            # the only variable that reaches the last input is wrapped in every list / non-null shape (three representative graphs)
+            if n == 2 and sorted(edges) in ([], [(2, 1)], [(1, 2), (2, 1)]):
+                from mc import corpus
+                for k, shape in enumerate(corpus.SHAPES):
+                    if tier == "quick" and shape.count("[") < 1 + (sorted(edges) != [(2, 1)]):
+                        continue
+                    groups.append(dict(n=n, edges=sorted(edges), opset=f"wrapped_variable:{shape}", schema=make_schema(n, edges),
+                                       queries=f"query QW($a: {shape.replace('T', 'I2')}) {{ qw{k}(a: $a) {{ id }} }}\n"))
     return groups
 
 
